@@ -111,6 +111,9 @@ func (c *Ctx) Sched(label string, n int, cost []int, key uint64) int {
 	return c.choose(label, n, KSched, cost, key, true)
 }
 
+// Pruning reports whether state keys are used (visited-state pruning is on).
+func (c *Ctx) Pruning() bool { return c.visit != nil }
+
 // Choices returns the vector of alternatives taken so far.
 func (c *Ctx) Choices() []int {
 	out := make([]int, len(c.Points))
